@@ -193,7 +193,10 @@ SearchN(vs, cp, dir, cnt, r, o, fwdcmd) ==
     LET a == SearchStep(vs, cp, dir, r, o) IN
     IF ~a[1] THEN a
     ELSE IF cnt = 1 THEN a
-    ELSE SearchN(vs, cp, dir, cnt - 1, a[2], IF fwdcmd THEN a[3] + a[4] ELSE a[3], fwdcmd)
+    (* "a count repeats the search": N/re is /re followed by n, N - 1 times.  (The pinned tree advanced the position by the length
+       of the match between the repetitions of a typed "/" and so skipped a match beginning right where the previous one ended;
+       the reference had transcribed that, wrongly - see known_findings.jsonl, fixed in a651967.) *)
+    ELSE SearchN(vs, cp, dir, cnt - 1, a[2], a[3], fwdcmd)
 
 (* ---- motions: <<status, vs', r, o>>; status 0 = not a motion, -1 = failed, else the motion (a string) ------------ *)
 (* m = [k, ch, re, so]; cnt: effective count (0: none given) *)
@@ -252,6 +255,16 @@ MotionCh(vs, m, cnt0, r, o) ==     \* <<ok, vs', r, o>> for the character motion
            LET RECURSIVE P(_, _)
                P(k, rr) == IF k = 0 THEN rr ELSE P(k - 1, Paragraph(vs, IF m.k = "}" THEN 1 ELSE -1, rr))
            IN <<TRUE, vs, P(cnt, r), 0>>
+      (* [[ and ]] (lbuf_sectionbeg with the default section pattern ^\{): the nearest line beginning with "{" strictly before /
+         after, else the first / last line; column 0.  Never fails. *)
+      [] m.k \in {"[[", "]]"} ->
+           LET d == IF m.k = "]]" THEN 1 ELSE -1
+               RECURSIVE Sec(_)
+               Sec(rr) == IF rr < 0 \/ rr >= NR(vs) THEN Max2(0, Min2(rr, NR(vs) - 1))
+                          ELSE IF FL(vs, rr) # <<>> /\ FL(vs, rr)[1] = 123 THEN rr ELSE Sec(rr + d)
+               RECURSIVE S(_, _)
+               S(k, rr) == IF k = 0 THEN rr ELSE S(k - 1, Sec(rr + d))
+           IN <<TRUE, vs, S(cnt, r), 0>>
       [] m.k = "0" -> <<TRUE, vs, r, 0>>
       [] m.k = "^" -> <<TRUE, vs, r, Indents(l)>>
       [] m.k = "$" -> <<TRUE, vs, r, Eol(l)>>
@@ -286,7 +299,7 @@ SetMark(vs, mc, row, off) == [vs EXCEPT !.ed.marks[mc] = [row |-> row, solid |->
 MarkSave(vs) == SetMark(vs, 39, vs.row, vs.off)
 MarkSave2(v, old) == SetMark(v, 39, old.row, old.off)
 (* a motion given as such (not as an operator's target): the bookkeeping of the main loop *)
-CtxMotions == {"'", "`", "G", "H", "M", "L", "/", "?", "{", "}", "n", "N"}
+CtxMotions == {"'", "`", "G", "H", "M", "L", "/", "?", "{", "}", "[[", "]]", "n", "N"}
 DoMotion(vs, m, cnt) ==
     LET r0 == vs.row
         o0 == Noeol(FL(vs, vs.row), vs.off)
@@ -579,6 +592,7 @@ MotKeys(m) ==
       [] m.k = "G" -> <<71>> [] m.k = "H" -> <<72>> [] m.k = "L" -> <<76>> [] m.k = "M" -> <<77>>
       [] m.k = ";" -> <<59>> [] m.k = "," -> <<44>> [] m.k = "h" -> <<104>> [] m.k = "l" -> <<108>>
       [] m.k = "w" -> <<119>> [] m.k = "W" -> <<87>> [] m.k = "e" -> <<101>> [] m.k = "E" -> <<69>> [] m.k = "b" -> <<98>> [] m.k = "B" -> <<66>>
+      [] m.k = "[[" -> <<91, 91>> [] m.k = "]]" -> <<93, 93>>
       [] m.k = "{" -> <<123>> [] m.k = "}" -> <<125>> [] m.k = "0" -> <<48>> [] m.k = "^" -> <<94>> [] m.k = "$" -> <<36>> [] m.k = "|" -> <<124>>
       [] m.k = " " -> <<32>> [] m.k = "%" -> <<37>> [] m.k = "n" -> <<110>> [] m.k = "N" -> <<78>>
 CntKeys(n) == IF n = 0 THEN <<>> ELSE NumStr(n)
